@@ -185,3 +185,31 @@ func ruleC11WriteBack(p *Prog, r *Res) {
 	}
 	r.Floor(rule, 5, n)
 }
+
+// ---- C11-f: reference lists handed out by a tag are copies ----
+
+func init() {
+	register("C11",
+		"C11-f (FRESH-slices): tag.referencedTags() returns memory the caller owns — the cycle walk (referencesTag) uses the list it is given as a work list, popping from and appending to it; a list that aliases features.MainTags of a stored tag would be rewritten by the walk, leaving the tag with a definition that names one set of tags and a reference list that names another (referencedBy mirrors go wrong: a referenced tag can be deleted, an unreferenced one is pinned).",
+		func(p *Prog, r *Res) {
+			const rule = "C11-f reference-list-is-a-copy"
+			r.Rule(rule + ": every result of tag.referencedTags is an owned slice")
+			f := p.Fn("manager.tag.referencedTags")
+			if f == nil {
+				p.anchorFail("manager.tag.referencedTags")
+				return
+			}
+			oc := newOwnCtx(p)
+			oc.strict = true
+			n := 0
+			inspectShallow(f.Body(), func(x ast.Node) bool {
+				if rs, ok := x.(*ast.ReturnStmt); ok && len(rs.Results) == 1 {
+					n++
+					okO, why := oc.owned(f, rs.Results[0])
+					r.Check(okO, rule, fmt.Sprintf("manager.tag.referencedTags return#%d is an owned slice", n), p.Pos(rs), why, "the reference list handed out aliases the tag's own feature lists ("+why+"): callers that use it as a work list rewrite the stored tag's references")
+				}
+				return true
+			})
+			r.Floor(rule, 1, n)
+		})
+}
